@@ -732,7 +732,7 @@ def to_ovld(x):
     """Return whether the argument is an ovld function/method."""
     x = getattr(x, "__ovld__", x)
     if inspect.isfunction(x):
-        return ovld(x, fresh=True)
+        return ovld(x, fresh=True).__ovld__
     else:
         return x if isinstance(x, Ovld) else None
 
@@ -757,24 +757,32 @@ class ovld_cls_dict(dict):
 
     def __init__(self, bases):
         self._bases = bases
+        self._extended = set()
 
     def __setitem__(self, attr, value):
         prev = None
         if attr in self:
             prev = to_ovld(self[attr])
-        elif is_ovld(value) and getattr(value, "_extend_super", False):
+        if (
+            is_ovld(value)
+            and getattr(value, "_extend_super", False)
+            and attr not in self._extended
+        ):
+            # Whichever of the same-named definitions carries the marker
+            self._extended.add(attr)
             mixins = []
             for base in self._bases:
                 if (candidate := getattr(base, attr, None)) is not None:
                     if mixin := to_ovld(candidate):
                         mixins.append(mixin)
-            if mixins:
+            if mixins and prev is None:
                 prev, *others = mixins
                 prev = prev.copy()
                 for other in others:
                     prev.add_mixins(other)
-        else:
-            prev = None
+            elif mixins:
+                # Earlier definitions of this class body stay on top
+                prev.add_mixins(*mixins)
 
         if prev is not None:
             if is_ovld(value) and prev is not value:
